@@ -24,6 +24,7 @@ def atoms_of(t):
 
 def check(ctx):
     p = ctx.prog
+    no_use_after_move(ctx, 'move.no_use_after_move', ['hep::plain', 'hep::vegas', 'hep::multi_channel', 'hep::mpi_plain', 'hep::mpi_vegas', 'hep::mpi_multi_channel'] + ['hep::chkpt_with_rng::add'], opaque=DRV_OPAQUE, minimum=6)
     # calls through base-class references reach the derived implementation
     no_hiding_in_hierarchy(ctx, 'dyn.overrides_are_virtual')
     # the callbacks receive the whole checkpoint (no slicing copy)
